@@ -10,7 +10,7 @@ TRUSTED_BASE = ['pyvc VC generator', 'z3 5.1', 'cvc5 1.0.3 (only for queries z3 
 PROPS = {
     'C04': dict(
         level='proof',
-        contracts=['C04', 'body_read', 'body_access', 'reqobj'],
+        contracts=['C04', 'body_read', 'body_access', 'reqobj', 'config'],
         frames=[],
         technique='deductive: loop-invariant VCs generated from the real AST of _iter_body/_body_read/_body/body, discharged by z3/cvc5; '
                   'bounded run-time contract check as replay harness',
@@ -78,7 +78,7 @@ PROPS = {
     ),
     'C15': dict(
         level='proof',
-        contracts=['C15', 'C03'],
+        contracts=['C15', 'C03', 'reqobj'],
         frames=[],
         technique='deductive: VCs from the real AST of _lscmp, cookie_is_encoded, cookie_decode (pickle.loads dominated by the signature '
                   'equality), cookie_encode (+ inverse lemma from library axioms), get_cookie; bounded run-time check of the SimpleCookie '
@@ -124,7 +124,7 @@ PROPS = {
     ),
     'C20': dict(
         level='proof',
-        contracts=['C20', 'wsgi'],
+        contracts=['C20', 'wsgi', 'config'],
         frames=['codec_lemma', 'error_sites'],
         technique='deductive: dataflow VCs from the real AST of error_render.render and Ombott.default_error_handler (the URL reaches '
                   'the template context only as repr(html.escape(url)); debug-only fields are constants otherwise); complete per-code-point '
@@ -259,7 +259,7 @@ PROPS = {
         level_note='Bounds are stated in coverage.bounded.bound. Two known findings (names of a second rule on a shared pattern; int filter digit limit).',
     ),
     'C06': dict(
-        level='other', contracts=['body_read', 'C06'], frames=['headers_regex'],
+        level='other', contracts=['body_read', 'C06', 'C04'], frames=['headers_regex'],
         technique='bounded run-time contract check of compositionality: MultipartMarkup.parse fed with every division of small-scope byte strings '
                   'and of generated well-formed bodies (and their prefixes) must equal the one-piece parse; VC: _body_read feeds every part in order',
         explanation='BOUNDED small-scope exhaustive splits; proved: _body_read hands each part to markup.parse in order; the three post-delimiter '
@@ -279,7 +279,7 @@ PROPS = {
         level_note='Bounds are stated in coverage.bounded.bound.',
     ),
     'C07': dict(
-        level='other', contracts=['C07', 'collect', 'C06'], frames=['class_attrs'],
+        level='other', contracts=['C07', 'collect', 'C06', 'config'], frames=['class_attrs'],
         technique='bounded run-time contract check: encode (independent RFC 7578 encoder) -> POST through Ombott.__call__ -> compare forms/files',
         explanation='BOUNDED field lists, names, contents, boundaries, thresholds and framings; proved: BytesIOProxy read/seek/tell stay inside the '
                     'window [_st,_end) of the buffered body (no byte of another part) and return exactly the window slice; _collect_multipart puts every '
